@@ -4,6 +4,7 @@
   script-pcall redis.pcall with literal arguments        multi        MULTI / form / EXEC
   script-sha  SCRIPT LOAD, then EVALSHA with KEYS[1] / ARGV[i]
   multi-script MULTI / EVAL of the form / EXEC
+  script-pcall-then / script-call-then   the form through redis.pcall / redis.call followed by a second statement
 Every segment: fresh dataset (forms.PRE, in database `db`; the same key names with other values in database `odb`),
 the form through the path, a dump of both databases.  The segments of a trace are validated independently by TLC."""
 import forms
@@ -48,6 +49,8 @@ def run_forms(s, path, db=0, odb=None, subset=None, prefix='form', reset=True):
     """Emit one segment per form into the session's trace; returns the number of segments."""
     n = 0
     for a in (subset if subset is not None else forms.FORMS):
+        if path.endswith('-then') and a[0].upper() == b'XADD' and len(a) > 2 and a[2] == b'*':
+            continue      # an auto-generated id is only learnt from the reply of the returning call
         for cid in list(s.clients):
             s.close(cid)
         if reset:
@@ -69,6 +72,16 @@ def run_forms(s, path, db=0, odb=None, subset=None, prefix='form', reset=True):
             s.cmd(c, [b'MULTI'])
             s.cmd(c, a)
             s.cmd(c, [b'EXEC'])
+        elif path == 'script-pcall-then':
+            # a failing redis.pcall must not end the script: the statement behind it runs and its reply comes back
+            prog = [L.call([L.arg_lit(x) for x in a], ret=0, pcall=True),
+                    L.call([L.arg_lit(b'SET'), L.arg_lit(b'marker'), L.arg_lit(b'1')], ret=1)]
+            eval_prog(s, c, prog, [], [])
+        elif path == 'script-call-then':
+            # a failing redis.call ends the script: the statement behind it does not run
+            prog = [L.call([L.arg_lit(x) for x in a], ret=0, pcall=False),
+                    L.call([L.arg_lit(b'SET'), L.arg_lit(b'marker'), L.arg_lit(b'1')], ret=1)]
+            eval_prog(s, c, prog, [], [])
         elif path == 'multi-script':
             s.cmd(c, [b'MULTI'])
             eval_form(s, c, a, 'keys', False)
